@@ -9,7 +9,7 @@ cd "$W" || exit 2
 git checkout -q -- . && git clean -qfd
 DEMO=$(ls "$D"/*.rs | head -1); NAME=$(basename "$DEMO" .rs)
 README=$(mktemp); sed -e ':a' -e '/\\$/N; s/\\\n */ /; ta' "$D/README.md" > "$README"
-DEST=$(grep -o "cp [^ ]*$NAME.rs [^ ]*" "$README" | head -1 | awk '{print $3}'); DEST=${DEST:-zlink-core/tests/}
+DEST=$(grep -o "cp [^ ]*$NAME.rs [^ ]*" "$README" | head -1 | awk '{print $3}' | tr -d '`'); DEST=${DEST:-zlink-core/tests/}
 case "$DEST" in /*) DEST=${DEST#$W/}; DEST=${DEST#/tmp/wt-*/};; esac
 CMD=$(grep -o "cargo test [^\`]*--test $NAME[^\`]*" "$README" | head -1); CMD=${CMD:-cargo test -p zlink-core --offline --test $NAME}
 case "$DEST" in *.rs) mkdir -p "$(dirname "$DEST")"; cp "$DEMO" "$DEST"; INST="$DEST";; *) mkdir -p "$DEST"; cp "$DEMO" "$DEST/"; INST="$DEST/$NAME.rs";; esac
